@@ -35,6 +35,7 @@ def last(ty):
 
 def run(ctx):
     ctx.rule("C18-R1", "generated conversions are field-wise: output field i <- conversion of input field i with field i's own type")
+    ctx.rule("C18-R4", "generated conversions run the fields' own code (conversion, clone of a passed-through field) in declaration order")
     ctx.rule("C18-R2", "derive(Component) selects the requested storage (type-equality obligations inside the family)")
     ctx.rule("C18-R3", "the generated data type's wire form names the variant and carries every field")
     d, man = extract.shapes_facts("quick" if ctx.tier == "quick" else "thorough")
@@ -60,6 +61,7 @@ def run(ctx):
             variants = sh["variants"] if sh["kind"] == "enum" else [{"name": None, "fields": sh["fields"]}]
             problems = []
             undet = []
+            order_problems = []
             for v in variants:
                 aggs = []
                 for bid, blk in b.blocks.items():
@@ -77,6 +79,7 @@ def run(ctx):
                     problems.append("%s has %d fields, expected %d" % (v["name"] or out_adt, len(rv["ops"]), len(v["fields"])))
                     continue
                 prefix = ("as " + v["name"],) if v["name"] else ()
+                effects = []     # (field position, block of the call into the field's own code: its conversion, or the clone of a skipped field)
                 for i, f in enumerate(v["fields"]):
                     o = b.operand_origin(rv["ops"][i])
                     want_in = ("param", 1, prefix + (f["name"],))
@@ -88,6 +91,9 @@ def run(ctx):
                         src_ok = o == want_in or any(dd[0] == "call" and b.term(dd[1])["callee"].get("name") == "clone" and b.arg_origin(dd[1], 0) == want_in for dd in deps | {o})
                         if not src_ok:
                             problems.append("skipped field %s does not come from input field %s (%r)" % (f["name"], f["name"], o))
+                        for dd in deps | {o}:
+                            if dd[0] == "call" and b.term(dd[1])["callee"].get("name") == "clone" and b.arg_origin(dd[1], 0) == want_in:
+                                effects.append((i, dd[1]))
                         continue
                     if len(convs) != 1:
                         composite = f["ty"].strip().startswith(("[", "("))
@@ -101,6 +107,7 @@ def run(ctx):
                             problems.append("field %s derives from %d conversion calls" % (f["name"], len(convs)))
                         continue
                     cb = convs[0][1]
+                    effects.append((i, cb))
                     c = b.term(cb)["callee"]
                     ain = b.arg_origin(cb, 0)
                     if ain != want_in:
@@ -109,6 +116,18 @@ def run(ctx):
                         problems.append("field %s (declared %s) is converted with %s's conversion" % (f["name"], f["ty"], c.get("self_ty")))
                     if b.arg_origin(cb, 1)[:2] != ("param", 2) and not any(dd[0] == "param" and dd[1] == 2 for dd in b.deps(b.arg_origin(cb, 1))):
                         problems.append("field %s is not converted with the id mapping passed in" % f["name"])
+                # R4: a field-wise definition runs the fields' own code (conversions, clones of passed-through fields) in declaration order.
+                # The order is observable: `ids` allocates markers as it is called (serialize_recursive), and when one field's code fails or
+                # panics, what was already done for the others stays done (seed C18-i1: converted fields first, passed-through ones last).
+                for (i1, b1) in effects:
+                    for (i2, b2) in effects:
+                        if i1 < i2 and b1 != b2:
+                            t2 = b.term(b2).get("target")
+                            fwd = b2 in b.reachable(b.term(b1).get("target")) if b.term(b1).get("target") is not None else False
+                            back = t2 is not None and b1 in b.reachable(t2)
+                            if not fwd or back:
+                                order_problems.append("%s: the code of field %s runs before that of field %s, which is declared first" % (
+                                    key, v["fields"][i2]["name"], v["fields"][i1]["name"]))
                 if v["name"] and not v["fields"]:
                     # unit variant: built only in its own arm
                     sw = [(sbb, tv, other) for sbb, org, tv, other in b.switch_edges() if org == ("discr", ("param", 1, ()))]
@@ -119,6 +138,8 @@ def run(ctx):
                         if bid in b.reachable(0, removed={(sbb, tgt)}):
                             problems.append("unit variant %s is produced for another input variant" % v["name"])
             ctx.ob("C18-R1", key, False if problems else ("undetermined" if undet else True), b.loc(), "; ".join((problems or undet)[:4]), config="shapes")
+            if not problems:
+                ctx.ob("C18-R4", key + " runs the fields' code in declaration order", not order_problems, b.loc(), "; ".join(order_problems[:3]), config="shapes")
     ctx.floor("C18-R1", "generated conversion bodies checked", n, 60, config="shapes")
     r3(ctx, facts, man)
 
